@@ -102,7 +102,7 @@ func VerifC19Bad() {
 	goodLine := c19line(23, good)
 	var bad []byte
 	hasNewline := true
-	switch zz.Choice("mutation", 8) {
+	switch zz.Choice("mutation", 9) {
 	case 0: // odd number of hex characters
 		bad = append([]byte("5 "), c19hex(zz.U8("a")&0x0F), c19hex(zz.U8("b")&0x0F), c19hex(zz.U8("c")&0x0F), '\n')
 	case 1: // a non-hex character at a symbolic position of the payload
@@ -130,6 +130,12 @@ func VerifC19Bad() {
 		zz.Assume(!((x >= '0' && x <= '9') || (x >= 'a' && x <= 'f') || (x >= 'A' && x <= 'F')))
 		zz.Assume(x != ' ' && x != '\n')
 		bad = append([]byte("5 "), c19hex(zz.U8("a")&0x0F), c19hex(zz.U8("b")&0x0F), c19hex(zz.U8("c")&0x0F), c19hex(zz.U8("d")&0x0F), x, '\n')
+	case 8: // a time stamp field of 11..16 digits (no int32 has that many): one malformed line, consumed up to its newline
+		ts := []byte("9876543210987654")[:11+zz.Choice("tslen", 6)]
+		d := zz.U8("firstdigit")
+		zz.Assume(d >= '1' && d <= '9')
+		ts[0] = d
+		bad = append(append(ts, ' '), c19hex(zz.U8("a")&0x0F), c19hex(zz.U8("b")&0x0F), '\n')
 	case 4: // missing terminator before the end of the stream
 		bad = append([]byte("5 "), c19hex(zz.U8("a")&0x0F), c19hex(zz.U8("b")&0x0F))
 		hasNewline = false
